@@ -1,4 +1,4 @@
-package harness
+package c19
 
 // C19 — EVM log and tx indices are unique and gap-free within a block.
 //
@@ -33,6 +33,8 @@ import (
 	gethcommon "github.com/ethereum/go-ethereum/common"
 	gethcore "github.com/ethereum/go-ethereum/core/types"
 	"github.com/ethereum/go-ethereum/crypto"
+
+	. "verifharness/hx"
 
 	"github.com/NibiruChain/nibiru/v2/eth"
 	"github.com/NibiruChain/nibiru/v2/x/evm"
